@@ -16,27 +16,27 @@ variable {σ δ : Type} (S : Src σ) (D : Dec δ) (cfg : Cfg δ)
 
 /-! ## what decoding may touch -/
 
-/-- the result `x` of a step that started in `r`: file, `length_remaining` and buffer untouched,
-and if it raised, not the model's `fuel` outcome -/
+/-- the result `x` of a step that started in `r`: file, `length_remaining`, buffer, `chunk_left` and
+connection untouched, and if it raised, neither the model's `fuel` outcome nor ProtocolError -/
 def DecStep (r : R σ δ) {α : Type} (x : Except Exc α × R σ δ) : Prop :=
   x.2.fp = r.fp ∧ x.2.lengthRemaining = r.lengthRemaining ∧ x.2.buf = r.buf ∧ x.2.chunkLeft = r.chunkLeft ∧
-  ∀ e, x.1 = .error e → e ≠ .fuel
+  x.2.conn = r.conn ∧ ∀ e, x.1 = .error e → e ≠ .fuel ∧ e ≠ .protocolError
 
-theorem excOfDecompress_ne_fuel (e : DErr) : excOfDecompress e ≠ .fuel := by
+theorem excOfDecompress_ne (e : DErr) : excOfDecompress e ≠ .fuel ∧ excOfDecompress e ≠ .protocolError := by
   cases e <;> simp [excOfDecompress]
 
 theorem flushDecoder_decStep (r : R σ δ) : DecStep r (flushDecoder D r) := by
   unfold flushDecoder DecStep
   split
-  · exact ⟨rfl, rfl, rfl, rfl, fun e h => by cases h⟩
+  · exact ⟨rfl, rfl, rfl, rfl, rfl, fun e h => by cases h⟩
   · split
-    · exact ⟨rfl, rfl, rfl, rfl, fun e h => by cases h; simp⟩
-    · exact ⟨rfl, rfl, rfl, rfl, fun e h => by cases h; simp⟩
+    · exact ⟨rfl, rfl, rfl, rfl, rfl, fun e h => by cases h; simp⟩
+    · exact ⟨rfl, rfl, rfl, rfl, rfl, fun e h => by cases h; simp⟩
     · split
-      · refine ⟨rfl, rfl, rfl, rfl, fun e h => ?_⟩
+      · refine ⟨rfl, rfl, rfl, rfl, rfl, fun e h => ?_⟩
         simp only [Except.error.injEq] at h
-        rw [← h]; exact excOfDecompress_ne_fuel _
-      · exact ⟨rfl, rfl, rfl, rfl, fun e h => by cases h⟩
+        rw [← h]; exact excOfDecompress_ne _
+      · exact ⟨rfl, rfl, rfl, rfl, rfl, fun e h => by cases h⟩
 
 theorem decode_decStep (r : R σ δ) (a : Bytes) (dc fl : Bool) : DecStep r (decode D r a dc fl) := by
   have key : ∀ (step : Except Exc Bytes × R σ δ), DecStep r step →
@@ -59,41 +59,44 @@ theorem decode_decStep (r : R σ δ) (a : Bytes) (dc fl : Bool) : DecStep r (dec
         have hf := flushDecoder_decStep D r1
         generalize flushDecoder D r1 = fr at hf ⊢
         obtain ⟨x, r2⟩ := fr
-        obtain ⟨s1, s2, s3, s5, _⟩ := hs
-        obtain ⟨f1, f2, f3, f5, f4⟩ := hf
-        simp only [] at s1 s2 s3 s5 f1 f2 f3 f4 f5
+        obtain ⟨s1, s2, s3, s5, s6, _⟩ := hs
+        obtain ⟨f1, f2, f3, f5, f6, f4⟩ := hf
+        simp only [] at s1 s2 s3 s5 s6 f1 f2 f3 f4 f5 f6
         cases x with
-        | error e => exact ⟨f1.trans s1, f2.trans s2, f3.trans s3, f5.trans s5, fun e' h => f4 e' h⟩
-        | ok t => exact ⟨f1.trans s1, f2.trans s2, f3.trans s3, f5.trans s5, fun e' h => by cases h⟩
+        | error e =>
+          exact ⟨f1.trans s1, f2.trans s2, f3.trans s3, f5.trans s5, f6.trans s6, fun e' h => f4 e' h⟩
+        | ok t =>
+          exact ⟨f1.trans s1, f2.trans s2, f3.trans s3, f5.trans s5, f6.trans s6, fun e' h => by cases h⟩
       · rw [if_neg hfl]
-        exact ⟨hs.1, hs.2.1, hs.2.2.1, hs.2.2.2.1, fun e h => by cases h⟩
+        exact ⟨hs.1, hs.2.1, hs.2.2.1, hs.2.2.2.1, hs.2.2.2.2.1, fun e h => by cases h⟩
   unfold decode
   split
   · split
-    · exact ⟨rfl, rfl, rfl, rfl, fun e h => by cases h; simp⟩
-    · exact ⟨rfl, rfl, rfl, rfl, fun e h => by cases h⟩
+    · exact ⟨rfl, rfl, rfl, rfl, rfl, fun e h => by cases h; simp⟩
+    · exact ⟨rfl, rfl, rfl, rfl, rfl, fun e h => by cases h⟩
   · apply key
     cases hd : r.decoder with
-    | none => exact ⟨rfl, rfl, rfl, rfl, fun e h => by cases h⟩
+    | none => exact ⟨rfl, rfl, rfl, rfl, rfl, fun e h => by cases h⟩
     | some d =>
       simp only []
       generalize D.decompress d a = z
       obtain ⟨x, d'⟩ := z
       cases x with
       | error e =>
-        refine ⟨rfl, rfl, rfl, rfl, fun e' h => ?_⟩
+        refine ⟨rfl, rfl, rfl, rfl, rfl, fun e' h => ?_⟩
         simp only [Except.error.injEq] at h
-        rw [← h]; exact excOfDecompress_ne_fuel _
-      | ok o => exact ⟨rfl, rfl, rfl, rfl, fun e h => by cases h⟩
+        rw [← h]; exact excOfDecompress_ne _
+      | ok o => exact ⟨rfl, rfl, rfl, rfl, rfl, fun e h => by cases h⟩
 
 /-- `self._decoded_buffer.get(a)` with at least one byte buffered and `a > 0`: a non-empty piece -/
 theorem bufGet_nonempty (r : R σ δ) (a : Nat) (ha : 0 < a) (hb : 0 < bqLen r.buf) :
-    ∃ d r', bufGet r a = (.ok d, r') ∧ d ≠ [] ∧ r'.fp = r.fp ∧ r'.lengthRemaining = r.lengthRemaining := by
+    ∃ d r', bufGet r a = (.ok d, r') ∧ d ≠ [] ∧ r'.fp = r.fp ∧ r'.lengthRemaining = r.lengthRemaining ∧
+      r'.conn = r.conn := by
   have hne : r.buf ≠ [] := by
     intro h; rw [h] at hb; simp [bqLen] at hb
   obtain ⟨⟨d, q'⟩, hget⟩ := Option.isSome_iff_exists.mp (bqGet_isSome r.buf a (Or.inl hne))
   obtain ⟨hd, _⟩ := bqGet_spec r.buf a d q' hget
-  refine ⟨d, { r with buf := q' }, by simp only [bufGet, hget], ?_, rfl, rfl⟩
+  refine ⟨d, { r with buf := q' }, by simp only [bufGet, hget], ?_, rfl, rfl, rfl⟩
   intro h0
   rw [h0] at hd
   rw [bqLen_eq] at hb
@@ -103,66 +106,83 @@ theorem bufGet_nonempty (r : R σ δ) (a : Nat) (ha : 0 < a) (hb : 0 < bqLen r.b
 
 /-! ## the broken-source contract -/
 
+/-- the connection has been closed and handed back (closed) to the pool -/
+def ConnDone (r : R σ δ) : Prop := r.connClosed = true ∧ r.released = true ∧ r.conn = false
+
 /-- what `_raw_read` does on a **broken** source (`B` = the source is broken, over `_fp` and
 `length_remaining`; `size` = a measure that every successful read decreases): with an amount (or in
-`read1` mode) it raises ProtocolError or returns a non-empty piece and leaves the source broken;
-without an amount (`read()`) it raises ProtocolError -/
+`read1` mode) it raises ProtocolError — closing and handing back the connection it held — or returns
+a non-empty piece, leaves the source broken and keeps the connection; without an amount (`read()`) it
+raises ProtocolError; the file of a broken source is open -/
 structure RawBrokenSpec (B : σ → Option Int → Prop) (size : σ → Nat) : Prop where
   step : ∀ (r : R σ δ) (amt : Option Nat) (rd1 : Bool), amt ≠ some 0 → (rd1 = true ∨ amt ≠ none) →
     B r.fp r.lengthRemaining →
-    (∃ r', rawRead S cfg r amt rd1 = (.error .protocolError, r')) ∨
+    (∃ r', rawRead S cfg r amt rd1 = (.error .protocolError, r') ∧ (r.conn = true → ConnDone r')) ∨
     (∃ d r', rawRead S cfg r amt rd1 = (.ok d, r') ∧ d ≠ [] ∧ B r'.fp r'.lengthRemaining ∧
-      size r'.fp < size r.fp ∧ r'.buf = r.buf)
+      size r'.fp < size r.fp ∧ r'.buf = r.buf ∧ r'.conn = r.conn)
   all : ∀ (r : R σ δ), B r.fp r.lengthRemaining →
-    ∃ r', rawRead S cfg r none false = (.error .protocolError, r')
+    ∃ r', rawRead S cfg r none false = (.error .protocolError, r') ∧ (r.conn = true → ConnDone r')
   opened : ∀ (h : σ) (lr : Option Int), B h lr → S.isclosed h = false
 
-/-- the outcome of one call on a broken response: an exception (never the model's `fuel`), or a
-non-empty piece with the source still broken (and not larger) -/
+/-- an exception on a broken response that held its connection: never the model's `fuel`, and if it
+is ProtocolError the connection has been closed and handed back -/
+def BrokenErr (e : Exc) (r' : R σ δ) : Prop := e ≠ .fuel ∧ (e = .protocolError → ConnDone r')
+
+/-- the outcome of one call on a broken response that holds its connection: an exception
+(`BrokenErr`), or a non-empty piece with the source still broken (and not larger) and the connection
+still held -/
 def BrokenOut (B : σ → Option Int → Prop) (size : σ → Nat) (n : Nat) (x : Except Exc Bytes × R σ δ) : Prop :=
-  (∃ e r', x = (.error e, r') ∧ e ≠ .fuel) ∨
-  (∃ d r', x = (.ok d, r') ∧ d ≠ [] ∧ B r'.fp r'.lengthRemaining ∧ size r'.fp ≤ n)
+  (∃ e r', x = (.error e, r') ∧ BrokenErr e r') ∨
+  (∃ d r', x = (.ok d, r') ∧ d ≠ [] ∧ B r'.fp r'.lengthRemaining ∧ size r'.fp ≤ n ∧ r'.conn = true)
 
 variable {B : σ → Option Int → Prop} {size : σ → Nat}
+
+theorem brokenErr_dec {e : Exc} (r' : R σ δ) (h : e ≠ .fuel ∧ e ≠ .protocolError) : BrokenErr e r' :=
+  ⟨h.1, fun h0 => absurd h0 h.2⟩
+
+theorem brokenErr_runtime (r' : R σ δ) : BrokenErr .runtimeError r' := ⟨by simp, fun h => by cases h⟩
 
 /-- the `while len(self._decoded_buffer) < amt and data:` loop on a broken source: it raises, or it
 ends with `amt` bytes buffered -/
 theorem readLoop_broken (hB : RawBrokenSpec S cfg B size) (a : Nat) (ha : 0 < a) (dc fl : Bool) :
     ∀ (fuel : Nat) (r : R σ δ) (data : Bytes), B r.fp r.lengthRemaining → size r.fp < fuel → data ≠ [] →
-      (∃ e r', readLoop S D cfg a dc fl fuel r data = (.error e, r') ∧ e ≠ .fuel) ∨
+      r.conn = true →
+      (∃ e r', readLoop S D cfg a dc fl fuel r data = (.error e, r') ∧ BrokenErr e r') ∨
       (∃ r', readLoop S D cfg a dc fl fuel r data = (.ok (), r') ∧ B r'.fp r'.lengthRemaining ∧
-        size r'.fp ≤ size r.fp ∧ a ≤ bqLen r'.buf) := by
+        size r'.fp ≤ size r.fp ∧ a ≤ bqLen r'.buf ∧ r'.conn = true) := by
   intro fuel
   induction fuel with
   | zero => intro r data _ h; omega
   | succ k ih =>
-    intro r data hb hsz hdata
+    intro r data hb hsz hdata hconn
     unfold readLoop
     by_cases hc : bqLen r.buf < a ∧ (!data.isEmpty) = true
     · rw [if_pos hc]
-      rcases hB.step r (some a) false (by simp; omega) (Or.inr (by simp)) hb with ⟨r1, e1⟩ | ⟨d, r1, e1, hd, hb1, hs1, _⟩
-      · left; rw [e1]; exact ⟨_, r1, rfl, by simp⟩
+      rcases hB.step r (some a) false (by simp; omega) (Or.inr (by simp)) hb with
+        ⟨r1, e1, c1⟩ | ⟨d, r1, e1, hd, hb1, hs1, _, hc1⟩
+      · left; rw [e1]; exact ⟨_, r1, rfl, by simp, fun _ => c1 hconn⟩
       · rw [e1]
         simp only []
         have hdec := decode_decStep D r1 d dc fl
         generalize decode D r1 d dc fl = x at hdec ⊢
         obtain ⟨y, r2⟩ := x
-        obtain ⟨s1, s2, _, _, s4⟩ := hdec
-        simp only [] at s1 s2 s4
+        obtain ⟨s1, s2, _, _, s6, s4⟩ := hdec
+        simp only [] at s1 s2 s4 s6
         cases y with
-        | error e => left; exact ⟨e, r2, rfl, s4 e rfl⟩
+        | error e => left; exact ⟨e, r2, rfl, brokenErr_dec r2 (s4 e rfl)⟩
         | ok dd =>
           simp only []
           rcases ih { r2 with buf := bqPut r2.buf dd } d (by show B r2.fp r2.lengthRemaining; rw [s1, s2]; exact hb1)
-            (by show size r2.fp < k; rw [s1]; omega) hd with ⟨e, r', h1, h2⟩ | ⟨r', h1, h2, h3, h4⟩
+            (by show size r2.fp < k; rw [s1]; omega) hd (by show r2.conn = true; rw [s6, hc1]; exact hconn) with
+            ⟨e, r', h1, h2⟩ | ⟨r', h1, h2, h3, h4, h5⟩
           · left; exact ⟨e, r', h1, h2⟩
           · right
-            refine ⟨r', h1, h2, ?_, h4⟩
+            refine ⟨r', h1, h2, ?_, h4, h5⟩
             have : size r2.fp ≤ size r.fp := by rw [s1]; omega
             exact Nat.le_trans h3 this
     · rw [if_neg hc]
       right
-      refine ⟨r, rfl, hb, Nat.le_refl _, ?_⟩
+      refine ⟨r, rfl, hb, Nat.le_refl _, ?_, hconn⟩
       by_cases hlt : bqLen r.buf < a
       · exfalso
         apply hc
@@ -174,25 +194,29 @@ theorem readLoop_broken (hB : RawBrokenSpec S cfg B size) (a : Nat) (ha : 0 < a)
 
 /-- `read(a)`, `a > 0`, on a broken source — any decoder, decoding on or off -/
 theorem read_some_broken (hB : RawBrokenSpec S cfg B size) (a : Nat) (ha : 0 < a) (dco : Option Bool)
-    (r : R σ δ) (hb : B r.fp r.lengthRemaining) (hfuel : size r.fp < cfg.fuel) :
+    (r : R σ δ) (hb : B r.fp r.lengthRemaining) (hfuel : size r.fp < cfg.fuel) (hconn : r.conn = true) :
     BrokenOut B size (size r.fp) (read S D cfg r (some a) dco) := by
   obtain ⟨g1, g2, g3, _⟩ := initDec_other cfg r
+  obtain ⟨_, i2, _, _⟩ := initDec_sameConn cfg r
   unfold read
   generalize initDec cfg r = r0 at *
   have hb0 : B r0.fp r0.lengthRemaining := by rw [g1, g3]; exact hb
+  have hconn0 : r0.conn = true := by rw [i2]; exact hconn
   simp only []
   by_cases hge : bqLen r0.buf ≥ a
   · rw [if_pos hge]
     simp only []
-    obtain ⟨d, r', e1, e2, e3, e4⟩ := bufGet_nonempty r0 a ha (by omega)
+    obtain ⟨d, r', e1, e2, e3, e4, e5⟩ := bufGet_nonempty r0 a ha (by omega)
     right
-    exact ⟨d, r', e1, e2, by rw [e3, e4]; exact hb0, by rw [e3, g1]; exact Nat.le_refl _⟩
+    exact ⟨d, r', e1, e2, by rw [e3, e4]; exact hb0, by rw [e3, g1]; exact Nat.le_refl _, by rw [e5]; exact hconn0⟩
   · rw [if_neg hge]
     simp only []
-    rcases hB.step r0 (some a) false (by simp; omega) (Or.inr (by simp)) hb0 with ⟨r1, e1⟩ | ⟨d, r1, e1, hd, hb1, hs1, hbuf1⟩
-    · left; rw [e1]; exact ⟨_, r1, rfl, by simp⟩
+    rcases hB.step r0 (some a) false (by simp; omega) (Or.inr (by simp)) hb0 with
+      ⟨r1, e1, c1⟩ | ⟨d, r1, e1, hd, hb1, hs1, hbuf1, hc1⟩
+    · left; rw [e1]; exact ⟨_, r1, rfl, by simp, fun _ => c1 hconn0⟩
     · rw [e1]
       simp only []
+      have hconn1 : r1.conn = true := by rw [hc1]; exact hconn0
       have hde : d.isEmpty = false := by
         cases d with
         | nil => exact absurd rfl hd
@@ -202,52 +226,56 @@ theorem read_some_broken (hB : RawBrokenSpec S cfg B size) (a : Nat) (ha : 0 < a
       by_cases hdc : (!(dco.getD cfg.decodeDefault)) = true
       · rw [if_pos hdc]
         by_cases hh : r1.hasDecoded = true
-        · rw [if_pos hh]; left; exact ⟨_, r1, rfl, by simp⟩
+        · rw [if_pos hh]; left; exact ⟨_, r1, rfl, brokenErr_runtime r1⟩
         · rw [if_neg hh]; right
-          exact ⟨d, r1, rfl, hd, hb1, by rw [g1] at hs1; omega⟩
+          exact ⟨d, r1, rfl, hd, hb1, by rw [g1] at hs1; omega, hconn1⟩
       · rw [if_neg hdc]
         have hdec := decode_decStep D r1 d (dco.getD cfg.decodeDefault)
           ((some a).isNone || (decide (some a ≠ some 0) && d.isEmpty))
         generalize decode D r1 d (dco.getD cfg.decodeDefault)
           ((some a).isNone || (decide (some a ≠ some 0) && d.isEmpty)) = x at hdec ⊢
         obtain ⟨y, r2⟩ := x
-        obtain ⟨s1, s2, _, _, s4⟩ := hdec
-        simp only [] at s1 s2 s4
+        obtain ⟨s1, s2, _, _, s6, s4⟩ := hdec
+        simp only [] at s1 s2 s4 s6
         cases y with
-        | error e => left; exact ⟨e, r2, rfl, s4 e rfl⟩
+        | error e => left; exact ⟨e, r2, rfl, brokenErr_dec r2 (s4 e rfl)⟩
         | ok dd =>
           simp only []
           rcases readLoop_broken S D cfg hB a ha (dco.getD cfg.decodeDefault)
               ((some a).isNone || (decide (some a ≠ some 0) && d.isEmpty)) cfg.fuel
               { r2 with buf := bqPut r2.buf dd } d
               (by show B r2.fp r2.lengthRemaining; rw [s1, s2]; exact hb1)
-              (by show size r2.fp < cfg.fuel; rw [s1]; rw [g1] at hs1; omega) hd with
-            ⟨e, r', h1, h2⟩ | ⟨r', h1, h2, h3, h4⟩
+              (by show size r2.fp < cfg.fuel; rw [s1]; rw [g1] at hs1; omega) hd
+              (by show r2.conn = true; rw [s6]; exact hconn1) with
+            ⟨e, r', h1, h2⟩ | ⟨r', h1, h2, h3, h4, h5⟩
           · left; rw [h1]; exact ⟨e, r', rfl, h2⟩
           · rw [h1]
             simp only []
-            obtain ⟨o, r'', e1', e2', e3', e4'⟩ := bufGet_nonempty r' a ha (by omega)
+            obtain ⟨o, r'', e1', e2', e3', e4', e5'⟩ := bufGet_nonempty r' a ha (by omega)
             right
-            refine ⟨o, r'', e1', e2', by rw [e3', e4']; exact h2, ?_⟩
+            refine ⟨o, r'', e1', e2', by rw [e3', e4']; exact h2, ?_, by rw [e5']; exact h5⟩
             rw [e3']
             have : size r2.fp ≤ size r.fp := by rw [s1]; rw [g1] at hs1; omega
             exact Nat.le_trans h3 this
 
-/-- `read()` on a broken source raises ProtocolError -/
+/-- `read()` on a broken source raises ProtocolError and closes / hands back the connection -/
 theorem read_none_broken (hB : RawBrokenSpec S cfg B size) (dco : Option Bool) (cache : Bool)
     (r : R σ δ) (hb : B r.fp r.lengthRemaining) :
-    ∃ r', read S D cfg r none dco cache = (.error .protocolError, r') := by
+    ∃ r', read S D cfg r none dco cache = (.error .protocolError, r') ∧ (r.conn = true → ConnDone r') := by
   obtain ⟨g1, _, g3, _⟩ := initDec_other cfg r
-  obtain ⟨r1, e1⟩ := hB.all (initDec cfg r) (by rw [g1, g3]; exact hb)
-  exact ⟨r1, read_none_error S D cfg r dco cache _ r1 e1⟩
+  obtain ⟨_, i2, _, _⟩ := initDec_sameConn cfg r
+  obtain ⟨r1, e1, c1⟩ := hB.all (initDec cfg r) (by rw [g1, g3]; exact hb)
+  exact ⟨r1, read_none_error S D cfg r dco cache _ r1 e1, fun h => c1 (by rw [i2]; exact h)⟩
 
 /-- `read(0)` changes nothing a broken source sees -/
 theorem read_zero_broken (dco : Option Bool) (r : R σ δ) (hb : B r.fp r.lengthRemaining) :
-    ∃ r', read S D cfg r (some 0) dco = (.ok [], r') ∧ B r'.fp r'.lengthRemaining ∧ r'.fp = r.fp := by
+    ∃ r', read S D cfg r (some 0) dco = (.ok [], r') ∧ B r'.fp r'.lengthRemaining ∧ r'.fp = r.fp ∧
+      r'.conn = r.conn := by
   obtain ⟨g1, _, g3, _⟩ := initDec_other cfg r
+  obtain ⟨_, i2, _, _⟩ := initDec_sameConn cfg r
   unfold read
   generalize initDec cfg r = r0 at *
-  refine ⟨{ r0 with buf := r0.buf }, by simp [bufGet, bqGet], ?_, g1⟩
+  refine ⟨{ r0 with buf := r0.buf }, by simp [bufGet, bqGet], ?_, g1, i2⟩
   show B r0.fp r0.lengthRemaining
   rw [g1, g3]; exact hb
 
@@ -258,14 +286,15 @@ theorem bqLen_put (q : BQ) (d : Bytes) : bqLen (bqPut q d) = bqLen q + d.length 
 the buffer -/
 theorem read1Loop_broken (hB : RawBrokenSpec S cfg B size) (dc : Bool) :
     ∀ (fuel : Nat) (r : R σ δ) (data : Bytes), B r.fp r.lengthRemaining → size r.fp < fuel → data ≠ [] →
-      (∃ e r', read1Loop S D cfg dc fuel r data = (.error e, r') ∧ e ≠ .fuel) ∨
+      r.conn = true →
+      (∃ e r', read1Loop S D cfg dc fuel r data = (.error e, r') ∧ BrokenErr e r') ∨
       (∃ r', read1Loop S D cfg dc fuel r data = (.ok (), r') ∧ B r'.fp r'.lengthRemaining ∧
-        size r'.fp ≤ size r.fp ∧ 0 < bqLen r'.buf) := by
+        size r'.fp ≤ size r.fp ∧ 0 < bqLen r'.buf ∧ r'.conn = true) := by
   intro fuel
   induction fuel with
   | zero => intro r data _ h; omega
   | succ k ih =>
-    intro r data hb hsz hdata
+    intro r data hb hsz hdata hconn
     unfold read1Loop
     simp only []
     have hde : data.isEmpty = false := by
@@ -275,17 +304,18 @@ theorem read1Loop_broken (hB : RawBrokenSpec S cfg B size) (dc : Bool) :
     have hdec := decode_decStep D r data dc data.isEmpty
     generalize decode D r data dc data.isEmpty = x at hdec ⊢
     obtain ⟨y, r1⟩ := x
-    obtain ⟨s1, s2, _, _, s4⟩ := hdec
-    simp only [] at s1 s2 s4
+    obtain ⟨s1, s2, _, _, s6, s4⟩ := hdec
+    simp only [] at s1 s2 s4 s6
     cases y with
-    | error e => left; exact ⟨e, r1, rfl, s4 e rfl⟩
+    | error e => left; exact ⟨e, r1, rfl, brokenErr_dec r1 (s4 e rfl)⟩
     | ok dd =>
       simp only []
+      have hconn1 : r1.conn = true := by rw [s6]; exact hconn
       by_cases hdd : (!dd.isEmpty) = true ∨ data.isEmpty = true
       · rw [if_pos hdd]
         right
         refine ⟨_, rfl, by show B r1.fp r1.lengthRemaining; rw [s1, s2]; exact hb,
-          by show size r1.fp ≤ _; rw [s1]; exact Nat.le_refl _, ?_⟩
+          by show size r1.fp ≤ _; rw [s1]; exact Nat.le_refl _, ?_, hconn1⟩
         show 0 < bqLen (bqPut r1.buf dd)
         rw [bqLen_put]
         rcases hdd with h | h
@@ -295,39 +325,43 @@ theorem read1Loop_broken (hB : RawBrokenSpec S cfg B size) (dc : Bool) :
         · rw [hde] at h; cases h
       · rw [if_neg hdd]
         rcases hB.step { r1 with buf := bqPut r1.buf dd } (some 8192) true (by simp) (Or.inl rfl)
-            (by show B r1.fp r1.lengthRemaining; rw [s1, s2]; exact hb) with ⟨r2, e1⟩ | ⟨d, r2, e1, hd, hb2, hs2, _⟩
-        · left; rw [e1]; exact ⟨_, r2, rfl, by simp⟩
+            (by show B r1.fp r1.lengthRemaining; rw [s1, s2]; exact hb) with
+          ⟨r2, e1, c1⟩ | ⟨d, r2, e1, hd, hb2, hs2, _, hc2⟩
+        · left; rw [e1]; exact ⟨_, r2, rfl, by simp, fun _ => c1 hconn1⟩
         · rw [e1]
           simp only []
           have hs2' : size r2.fp < size r.fp := by
             have : size r2.fp < size r1.fp := hs2
             rw [s1] at this; exact this
-          rcases ih r2 d hb2 (by omega) hd with ⟨e, r', h1, h2⟩ | ⟨r', h1, h2, h3, h4⟩
+          have hconn2 : r2.conn = true := by rw [hc2]; exact hconn1
+          rcases ih r2 d hb2 (by omega) hd hconn2 with ⟨e, r', h1, h2⟩ | ⟨r', h1, h2, h3, h4, h5⟩
           · left; exact ⟨e, r', h1, h2⟩
-          · right; exact ⟨r', h1, h2, by omega, h4⟩
+          · right; exact ⟨r', h1, h2, by omega, h4, h5⟩
 
 /-- handing out of a non-empty decoded buffer (`get_all()` / `get(a)`, `a > 0`): a non-empty piece -/
 theorem serve_nonempty (amt : Option Nat) (hamt : amt ≠ some 0) (r : R σ δ) (hb : 0 < bqLen r.buf) :
     ∃ d r', (match amt with
         | none => (Except.ok (bqGetAll r.buf).1, { r with buf := (bqGetAll r.buf).2 })
-        | some a => bufGet r a) = (.ok d, r') ∧ d ≠ [] ∧ r'.fp = r.fp ∧ r'.lengthRemaining = r.lengthRemaining := by
+        | some a => bufGet r a) = (.ok d, r') ∧ d ≠ [] ∧ r'.fp = r.fp ∧ r'.lengthRemaining = r.lengthRemaining ∧
+      r'.conn = r.conn := by
   cases amt with
   | none =>
-    refine ⟨bqAll r.buf, { r with buf := [] }, rfl, ?_, rfl, rfl⟩
+    refine ⟨bqAll r.buf, { r with buf := [] }, rfl, ?_, rfl, rfl, rfl⟩
     intro h; rw [bqLen_eq, h] at hb; simp at hb
   | some a =>
     exact bufGet_nonempty r a (Nat.pos_of_ne_zero (fun h => hamt (by rw [h]))) hb
 
 /-- `read1(amt)` / `read1()` (`amt ≠ 0`) on a broken source — any decoder, decoding on or off -/
 theorem read1_broken (hB : RawBrokenSpec S cfg B size) (amt : Option Nat) (hamt : amt ≠ some 0)
-    (dco : Option Bool) (r : R σ δ) (hb : B r.fp r.lengthRemaining) (hfuel : size r.fp < cfg.fuel) :
+    (dco : Option Bool) (r : R σ δ) (hb : B r.fp r.lengthRemaining) (hfuel : size r.fp < cfg.fuel)
+    (hconn : r.conn = true) :
     BrokenOut B size (size r.fp) (read1 S D cfg r amt dco) := by
   unfold read1
   simp only []
   generalize dco.getD cfg.decodeDefault = dc
   by_cases hrt : r.hasDecoded = true ∧ (!dc) = true
   · left
-    refine ⟨.runtimeError, r, ?_, by simp⟩
+    refine ⟨.runtimeError, r, ?_, brokenErr_runtime r⟩
     simp [hrt.1, hrt.2]
   · by_cases hearly : r.hasDecoded = true ∧ bqLen r.buf > 0
     · obtain ⟨hhd, hbuf⟩ := hearly
@@ -335,9 +369,9 @@ theorem read1_broken (hB : RawBrokenSpec S cfg B size) (amt : Option Nat) (hamt 
         cases h : (!dc) with
         | false => rfl
         | true => exact absurd ⟨hhd, h⟩ hrt
-      obtain ⟨d, r', e1, e2, e3, e4⟩ := serve_nonempty amt hamt r hbuf
+      obtain ⟨d, r', e1, e2, e3, e4, e5⟩ := serve_nonempty amt hamt r hbuf
       right
-      refine ⟨d, r', ?_, e2, by rw [e3, e4]; exact hb, by rw [e3]; exact Nat.le_refl _⟩
+      refine ⟨d, r', ?_, e2, by rw [e3, e4]; exact hb, by rw [e3]; exact Nat.le_refl _, by rw [e5]; exact hconn⟩
       rw [← e1]
       simp only [hhd, if_true, hdc, Bool.false_eq_true, if_false, hbuf]
       cases amt <;> rfl
@@ -353,24 +387,26 @@ theorem read1_broken (hB : RawBrokenSpec S cfg B size) (amt : Option Nat) (hamt 
           simp [h1, h2, h3] at heq
         · simp [h1] at heq
       · rw [if_neg hamt]
-        rcases hB.step r amt true hamt (Or.inl rfl) hb with ⟨r1, e1⟩ | ⟨d, r1, e1, hd, hb1, hs1, _⟩
-        · left; rw [e1]; exact ⟨_, r1, rfl, by simp⟩
+        rcases hB.step r amt true hamt (Or.inl rfl) hb with ⟨r1, e1, c1⟩ | ⟨d, r1, e1, hd, hb1, hs1, _, hc1⟩
+        · left; rw [e1]; exact ⟨_, r1, rfl, by simp, fun _ => c1 hconn⟩
         · rw [e1]
           simp only []
+          have hconn1 : r1.conn = true := by rw [hc1]; exact hconn
           by_cases hdc : (!dc) = true
           · rw [if_pos hdc]
-            right; exact ⟨d, r1, rfl, hd, hb1, by omega⟩
+            right; exact ⟨d, r1, rfl, hd, hb1, by omega, hconn1⟩
           · rw [if_neg hdc]
             obtain ⟨g1, _, g3, _⟩ := initDec_other cfg r1
+            obtain ⟨_, i2, _, _⟩ := initDec_sameConn cfg r1
             generalize initDec cfg r1 = r0 at *
             rcases read1Loop_broken S D cfg hB dc cfg.fuel r0 d (by rw [g1, g3]; exact hb1)
-                (by rw [g1]; omega) hd with ⟨e, r', h1, h2⟩ | ⟨r', h1, h2, h3, h4⟩
+                (by rw [g1]; omega) hd (by rw [i2]; exact hconn1) with ⟨e, r', h1, h2⟩ | ⟨r', h1, h2, h3, h4, h5⟩
             · left; rw [h1]; exact ⟨e, r', rfl, h2⟩
             · rw [h1]
               simp only []
-              obtain ⟨o, r'', e1', e2', e3', e4'⟩ := serve_nonempty amt hamt r' h4
+              obtain ⟨o, r'', e1', e2', e3', e4', e5'⟩ := serve_nonempty amt hamt r' h4
               right
-              refine ⟨o, r'', ?_, e2', by rw [e3', e4']; exact h2, ?_⟩
+              refine ⟨o, r'', ?_, e2', by rw [e3', e4']; exact h2, ?_, by rw [e5']; exact h5⟩
               · rw [← e1']; cases amt <;> rfl
               · rw [e3']; rw [g1] at h3; omega
 
@@ -385,34 +421,35 @@ def EndSignal (c : RCall) (out : Bytes) : Prop :=
   | .read1 a => a ≠ some 0 ∧ out = []
 
 /-- one call of the read family on a broken response: an exception, or a piece that is no end
-signal, with the source still broken -/
+signal, with the source still broken and the connection still held -/
 theorem runRCall_broken (hB : RawBrokenSpec S cfg B size) (dco : Option Bool) (c : RCall)
-    (r : R σ δ) (hb : B r.fp r.lengthRemaining) (hfuel : size r.fp < cfg.fuel) :
-    (∃ e r', runRCall S D cfg dco r c = (.error e, r') ∧ e ≠ .fuel) ∨
+    (r : R σ δ) (hb : B r.fp r.lengthRemaining) (hfuel : size r.fp < cfg.fuel) (hconn : r.conn = true) :
+    (∃ e r', runRCall S D cfg dco r c = (.error e, r') ∧ BrokenErr e r') ∨
     (∃ out r', runRCall S D cfg dco r c = (.ok out, r') ∧ ¬ EndSignal c out ∧ B r'.fp r'.lengthRemaining ∧
-      size r'.fp ≤ size r.fp) := by
+      size r'.fp ≤ size r.fp ∧ r'.conn = true) := by
   cases c with
   | read amt =>
     cases amt with
     | none =>
-      obtain ⟨r', e1⟩ := read_none_broken S D cfg hB dco false r hb
-      left; exact ⟨_, r', e1, by simp⟩
+      obtain ⟨r', e1, c1⟩ := read_none_broken S D cfg hB dco false r hb
+      left; exact ⟨_, r', e1, by simp, fun _ => c1 hconn⟩
     | some a =>
       by_cases ha : a = 0
       · subst ha
-        obtain ⟨r', e1, e2, e3⟩ := read_zero_broken S D cfg dco r hb
-        right; exact ⟨[], r', e1, by simp [EndSignal], e2, by rw [e3]; exact Nat.le_refl _⟩
-      · rcases read_some_broken S D cfg hB a (Nat.pos_of_ne_zero ha) dco r hb hfuel with
-          ⟨e, r', e1, e2⟩ | ⟨d, r', e1, e2, e3, e4⟩
+        obtain ⟨r', e1, e2, e3, e4⟩ := read_zero_broken S D cfg dco r hb
+        right
+        exact ⟨[], r', e1, by simp [EndSignal], e2, by rw [e3]; exact Nat.le_refl _, by rw [e4]; exact hconn⟩
+      · rcases read_some_broken S D cfg hB a (Nat.pos_of_ne_zero ha) dco r hb hfuel hconn with
+          ⟨e, r', e1, e2⟩ | ⟨d, r', e1, e2, e3, e4, e5⟩
         · left; exact ⟨e, r', e1, e2⟩
-        · right; exact ⟨d, r', e1, by simp [EndSignal, e2], e3, e4⟩
+        · right; exact ⟨d, r', e1, by simp [EndSignal, e2], e3, e4, e5⟩
   | read1 amt =>
     by_cases ha : amt = some 0
     · subst ha
       -- `read1(0)`: b"" (or RuntimeError), nothing read
       have : (∃ r', runRCall S D cfg dco r (.read1 (some 0)) = (.error .runtimeError, r')) ∨
           (∃ r', runRCall S D cfg dco r (.read1 (some 0)) = (.ok [], r') ∧ r'.fp = r.fp ∧
-            r'.lengthRemaining = r.lengthRemaining) := by
+            r'.lengthRemaining = r.lengthRemaining ∧ r'.conn = r.conn) := by
         show (∃ r', read1 S D cfg r (some 0) dco = _) ∨ (∃ r', read1 S D cfg r (some 0) dco = _ ∧ _)
         unfold read1
         simp only []
@@ -424,41 +461,46 @@ theorem runRCall_broken (hB : RawBrokenSpec S cfg B size) (dco : Option Bool) (c
           | true =>
             by_cases h2 : bqLen r.buf > 0
             · right
-              refine ⟨r, ?_, rfl, rfl⟩
+              refine ⟨r, ?_, rfl, rfl, rfl⟩
               simp only [h1, if_true, Bool.not_true, Bool.false_eq_true, if_false, h2, hg]
-            · right; exact ⟨r, by simp [h1, h2], rfl, rfl⟩
-        · right; exact ⟨r, by simp [h1], rfl, rfl⟩
-      rcases this with ⟨r', e1⟩ | ⟨r', e1, e2, e3⟩
-      · left; exact ⟨_, r', e1, by simp⟩
-      · right; exact ⟨[], r', e1, by simp [EndSignal], by rw [e2, e3]; exact hb, by rw [e2]; exact Nat.le_refl _⟩
-    · rcases read1_broken S D cfg hB amt ha dco r hb hfuel with ⟨e, r', e1, e2⟩ | ⟨d, r', e1, e2, e3, e4⟩
+            · right; exact ⟨r, by simp [h1, h2], rfl, rfl, rfl⟩
+        · right; exact ⟨r, by simp [h1], rfl, rfl, rfl⟩
+      rcases this with ⟨r', e1⟩ | ⟨r', e1, e2, e3, e4⟩
+      · left; exact ⟨_, r', e1, brokenErr_runtime r'⟩
+      · right
+        exact ⟨[], r', e1, by simp [EndSignal], by rw [e2, e3]; exact hb, by rw [e2]; exact Nat.le_refl _,
+          by rw [e4]; exact hconn⟩
+    · rcases read1_broken S D cfg hB amt ha dco r hb hfuel hconn with ⟨e, r', e1, e2⟩ | ⟨d, r', e1, e2, e3, e4, e5⟩
       · left; exact ⟨e, r', e1, e2⟩
-      · right; exact ⟨d, r', e1, by simp [EndSignal, e2], e3, e4⟩
+      · right; exact ⟨d, r', e1, by simp [EndSignal, e2], e3, e4, e5⟩
 
-/-- **no call sequence of the read family ends normally on a broken response**: if the sequence
-runs through without an exception, none of its calls has signalled an end of body (so the caller
-is still waiting for more), and the source is still broken — the next `read()` raises -/
+/-- **no call sequence of the read family ends normally on a broken response**: an exception ends
+it (never the model's `fuel`; if it is ProtocolError, the connection the response held has been closed
+and handed back closed), or the sequence runs through, none of its calls has signalled an end of
+body, the source is still broken and the connection still held — the next `read()` raises -/
 theorem callSeq_broken (hB : RawBrokenSpec S cfg B size) (dco : Option Bool) :
-    ∀ (calls : List RCall) (r : R σ δ), B r.fp r.lengthRemaining → size r.fp < cfg.fuel →
-      (∃ e r', callSeq S D cfg dco calls r = (.error e, r') ∧ e ≠ .fuel) ∨
+    ∀ (calls : List RCall) (r : R σ δ), B r.fp r.lengthRemaining → size r.fp < cfg.fuel → r.conn = true →
+      (∃ e r', callSeq S D cfg dco calls r = (.error e, r') ∧ BrokenErr e r') ∨
       (∃ outs r', callSeq S D cfg dco calls r = (.ok outs, r') ∧ outs.length = calls.length ∧
         (∀ i (hi : i < calls.length) (ho : i < outs.length), ¬ EndSignal calls[i] outs[i]) ∧
-        B r'.fp r'.lengthRemaining ∧ size r'.fp ≤ size r.fp) := by
+        B r'.fp r'.lengthRemaining ∧ size r'.fp ≤ size r.fp ∧ r'.conn = true) := by
   intro calls
   induction calls with
-  | nil => intro r hb _; right; exact ⟨[], r, rfl, rfl, fun i hi => by simp at hi, hb, Nat.le_refl _⟩
+  | nil =>
+    intro r hb _ hconn
+    right; exact ⟨[], r, rfl, rfl, fun i hi => by simp at hi, hb, Nat.le_refl _, hconn⟩
   | cons c t ih =>
-    intro r hb hf
+    intro r hb hf hconn
     unfold callSeq
-    rcases runRCall_broken S D cfg hB dco c r hb hf with ⟨e, r1, e1, e2⟩ | ⟨out, r1, e1, e2, e3, e4⟩
+    rcases runRCall_broken S D cfg hB dco c r hb hf hconn with ⟨e, r1, e1, e2⟩ | ⟨out, r1, e1, e2, e3, e4, e5⟩
     · left; rw [e1]; exact ⟨e, r1, rfl, e2⟩
     · rw [e1]
       simp only []
-      rcases ih r1 e3 (by omega) with ⟨e, r2, f1, f2⟩ | ⟨outs, r2, f1, f2, f3, f4, f5⟩
+      rcases ih r1 e3 (by omega) e5 with ⟨e, r2, f1, f2⟩ | ⟨outs, r2, f1, f2, f3, f4, f5, f6⟩
       · left; rw [f1]; exact ⟨e, r2, rfl, f2⟩
       · right
         rw [f1]
-        refine ⟨out :: outs, r2, rfl, by simp [f2], ?_, f4, by omega⟩
+        refine ⟨out :: outs, r2, rfl, by simp [f2], ?_, f4, by omega, f6⟩
         intro i hi ho
         cases i with
         | zero => exact e2
@@ -472,43 +514,45 @@ output is not bounded by the input —; that is the outcome `fuel`, an error too
 theorem streamLoop_broken (hB : RawBrokenSpec S cfg B size) (amt : Option Nat) (hamt : amt ≠ some 0)
     (dco : Option Bool) :
     ∀ (fuel : Nat) (r : R σ δ) (acc : List Bytes), B r.fp r.lengthRemaining → size r.fp < cfg.fuel →
+      r.conn = true →
       ∃ e, (streamLoop S D cfg amt dco fuel r acc).1.2 = some e := by
   intro fuel
   induction fuel with
-  | zero => intro r acc _ _; exact ⟨.fuel, rfl⟩
+  | zero => intro r acc _ _ _; exact ⟨.fuel, rfl⟩
   | succ k ih =>
-    intro r acc hb hf
+    intro r acc hb hf hconn
     unfold streamLoop
     have hop := hB.opened r.fp r.lengthRemaining hb
     have hc : (!S.isclosed r.fp) = true ∨ bqLen r.buf > 0 := Or.inl (by simp [hop])
     rw [if_pos hc]
     have hstep : (∃ e r', read S D cfg r amt dco = (.error e, r')) ∨
-        (∃ d r', read S D cfg r amt dco = (.ok d, r') ∧ B r'.fp r'.lengthRemaining ∧ size r'.fp ≤ size r.fp) := by
+        (∃ d r', read S D cfg r amt dco = (.ok d, r') ∧ B r'.fp r'.lengthRemaining ∧ size r'.fp ≤ size r.fp ∧
+          r'.conn = true) := by
       cases amt with
       | none =>
-        obtain ⟨r', e1⟩ := read_none_broken S D cfg hB dco false r hb
+        obtain ⟨r', e1, _⟩ := read_none_broken S D cfg hB dco false r hb
         left; exact ⟨_, r', e1⟩
       | some a =>
         have ha : 0 < a := Nat.pos_of_ne_zero (fun h0 => hamt (by rw [h0]))
-        rcases read_some_broken S D cfg hB a ha dco r hb hf with ⟨e, r', e1, _⟩ | ⟨d, r', e1, _, e3, e4⟩
+        rcases read_some_broken S D cfg hB a ha dco r hb hf hconn with ⟨e, r', e1, _⟩ | ⟨d, r', e1, _, e3, e4, e5⟩
         · left; exact ⟨e, r', e1⟩
-        · right; exact ⟨d, r', e1, e3, e4⟩
-    rcases hstep with ⟨e, r', e1⟩ | ⟨d, r', e1, e2, e3⟩
+        · right; exact ⟨d, r', e1, e3, e4, e5⟩
+    rcases hstep with ⟨e, r', e1⟩ | ⟨d, r', e1, e2, e3, e4⟩
     · rw [e1]; exact ⟨e, rfl⟩
     · rw [e1]
       simp only []
-      exact ih r' _ e2 (by omega)
+      exact ih r' _ e2 (by omega) e4
 
 /-- … hence `stream` and iteration on a non-chunked broken response end in an exception -/
 theorem stream_broken (hB : RawBrokenSpec S cfg B size) (hnc : cfg.chunked = false) (amt : Option Nat)
     (hamt : amt ≠ some 0) (dco : Option Bool) (r : R σ δ) (hb : B r.fp r.lengthRemaining)
-    (hf : size r.fp < cfg.fuel) :
+    (hf : size r.fp < cfg.fuel) (hconn : r.conn = true) :
     (∃ e, (stream S D cfg r amt dco).1.2 = some e) ∧ (∃ e, (iter S D cfg r).1.2 = some e) := by
   have h1 : ∀ amt' dco', amt' ≠ some 0 → ∃ e, (stream S D cfg r amt' dco').1.2 = some e := by
     intro amt' dco' ha'
     unfold stream
     simp only [hnc, Bool.false_eq_true, if_false]
-    exact streamLoop_broken S D cfg hB amt' ha' dco' cfg.fuel r [] hb hf
+    exact streamLoop_broken S D cfg hB amt' ha' dco' cfg.fuel r [] hb hf hconn
   refine ⟨h1 amt dco hamt, ?_⟩
   obtain ⟨e, he⟩ := h1 (some 65536) (some true) (by simp)
   unfold iter
@@ -517,6 +561,32 @@ theorem stream_broken (hB : RawBrokenSpec S cfg B size) (hnc : cfg.chunked = fal
   simp only [] at he
   subst he
   exact ⟨e, rfl⟩
+
+/-- a normal return of `_raw_read` that leaves the file open has not touched the connection -/
+theorem rawRead_ok_open (r : R σ δ) (amt : Option Nat) (rd1 : Bool) (d : Bytes) (r' : R σ δ)
+    (h : rawRead S cfg r amt rd1 = (.ok d, r')) (hop : S.isclosed r'.fp = false) : r'.conn = r.conn := by
+  rw [rawRead_eq] at h
+  obtain ⟨c1, _, _⟩ := rawBody_conn S cfg r amt rd1
+  generalize rawBody S cfg r amt rd1 = b at h c1
+  obtain ⟨res, r1⟩ := b
+  simp only [] at c1 h
+  cases res with
+  | error e0 =>
+    obtain ⟨r2, e1, _⟩ := errorCatcher_error_conn (α := Bytes) S r1 e0
+    rw [e1] at h
+    simp at h
+  | ok d0 =>
+    obtain ⟨r2, e1, e2, _, _, e5⟩ := errorCatcher_ok_conn S r1 d0
+    rw [e1] at h
+    simp only [] at h
+    split at h
+    · simp only [Prod.mk.injEq] at h
+      obtain ⟨_, rfl⟩ := h
+      rw [(e5 (by rw [← e2]; exact hop)).1, c1]
+    · simp only [Prod.mk.injEq] at h
+      obtain ⟨_, rfl⟩ := h
+      show r2.conn = _
+      rw [(e5 (by rw [← e2]; exact hop)).1, c1]
 
 end
 
@@ -569,6 +639,14 @@ theorem rawRead_eof_raises (r : R H δ) (amt : Option Nat) (rd1 : Bool) (h' : H)
   rw [hb]
   obtain ⟨r2, e1, _⟩ := errorCatcher_error_conn (α := Bytes) hSrc r0 .u3Incomplete
   exact ⟨r2, by simp only [e1]; rfl⟩
+
+/-- an exception out of `_raw_read` over `http.client`: the connection the response held is closed
+and handed back -/
+theorem rawRead_error_done (r : R H δ) (amt : Option Nat) (rd1 : Bool) (e : Exc) (r' : R H δ)
+    (h : rawRead hSrc cfg r amt rd1 = (.error e, r')) (hconn : r.conn = true) : ConnDone r' := by
+  obtain ⟨c1, fp0, _, c3⟩ := rawRead_error_conn hSrc cfg r amt rd1 e r' h
+  obtain ⟨c4, c5⟩ := c3 (hSrc_close_isclosed fp0) hconn
+  exact ⟨by rw [c1, hconn]; simp, c4, c5⟩
 
 /-! ### a body short of its Content-Length -/
 
@@ -694,6 +772,10 @@ theorem hRead1_short (h : H) (lr : Option Int) (n : Option Nat) (hn : n ≠ some
 
 /-- **`http.client` on a body short of its Content-Length obeys the broken-source contract**
 (with `enforce_content_length`, the default) -/
+theorem LShort.opened {h : H} {lr : Option Int} (hs : LShort h lr) : hSrc.isclosed h = false := by
+  obtain ⟨f, _, hf, _⟩ := hs.short
+  simp [hSrc, H.isclosed, hf]
+
 theorem hSrc_rawBroken_short (henf : cfg.enforce = true) : RawBrokenSpec (δ := δ) hSrc cfg LShort H.avail := by
   constructor
   · intro r amt rd1 hamt hapi hs
@@ -713,7 +795,8 @@ theorem hSrc_rawBroken_short (henf : cfg.enforce = true) : RawBrokenSpec (δ := 
       have ha : 0 < a := Nat.pos_of_ne_zero (fun h0 => hamt (by rw [h0]))
       rcases hRead_short_some r.fp r.lengthRemaining a ha hs with ⟨h', e1⟩ | ⟨d, h', e1, e2, e3, e4⟩
       · left
-        exact rawRead_eof_raises cfg r (some a) false h' hcl (by simpa using e1) hamt hapi henf hlrne
+        obtain ⟨r1, e⟩ := rawRead_eof_raises cfg r (some a) false h' hcl (by simpa using e1) hamt hapi henf hlrne
+        exact ⟨r1, e, rawRead_error_done cfg r _ _ _ r1 e⟩
       · right
         have hde : d.isEmpty = false := by
           cases d with
@@ -721,13 +804,15 @@ theorem hSrc_rawBroken_short (henf : cfg.enforce = true) : RawBrokenSpec (δ := 
           | cons _ _ => rfl
         obtain ⟨r', f0, f1, f2, f3, _⟩ := rawRead_ok hSrc cfg r (some a) d h'
           (by simp [hSrc, hcl, e1]) (by simp [hde])
-        refine ⟨d, r', f0, e2, ?_, ?_, f3⟩
-        · rw [f1, f2]; simp only [hde, Bool.false_eq_true, and_false, if_false]; exact e3
-        · rw [f1]; simp only [hde, Bool.false_eq_true, and_false, if_false]; exact e4
+        have hb' : LShort r'.fp r'.lengthRemaining := by
+          rw [f1, f2]; simp only [hde, Bool.false_eq_true, and_false, if_false]; exact e3
+        refine ⟨d, r', f0, e2, hb', ?_, f3, rawRead_ok_open hSrc cfg r _ _ d r' f0 hb'.opened⟩
+        rw [f1]; simp only [hde, Bool.false_eq_true, and_false, if_false]; exact e4
     | true =>
       rcases hRead1_short r.fp r.lengthRemaining amt hamt hs with ⟨h', e1⟩ | ⟨d, h', e1, e2, e3, e4, e5⟩
       · left
-        exact rawRead_eof_raises cfg r amt true h' hcl (by simpa using e1) hamt hapi henf hlrne
+        obtain ⟨r1, e⟩ := rawRead_eof_raises cfg r amt true h' hcl (by simpa using e1) hamt hapi henf hlrne
+        exact ⟨r1, e, rawRead_error_done cfg r _ _ _ r1 e⟩
       · right
         have hde : d.isEmpty = false := by
           cases d with
@@ -739,17 +824,18 @@ theorem hSrc_rawBroken_short (henf : cfg.enforce = true) : RawBrokenSpec (δ := 
           rintro (⟨_, h0⟩ | h0)
           · rw [hde] at h0; cases h0
           · exact e5 h0
-        refine ⟨d, r', f0, e2, ?_, ?_, f3⟩
-        · rw [f1, f2, if_neg hnc]; simp only [hde, Bool.false_eq_true, if_false]; exact e3
-        · rw [f1, if_neg hnc]; exact e4
+        have hb' : LShort r'.fp r'.lengthRemaining := by
+          rw [f1, f2, if_neg hnc]; simp only [hde, Bool.false_eq_true, if_false]; exact e3
+        refine ⟨d, r', f0, e2, hb', ?_, f3, rawRead_ok_open hSrc cfg r _ _ d r' f0 hb'.opened⟩
+        rw [f1, if_neg hnc]; exact e4
   · intro r hs
     obtain ⟨f, l, hf, hl, hlen, _⟩ := hs.short
     have h1 := hRead_length_short r.fp f l hf hs.head hs.chunked hl hlen
     have e : hRead r.fp none = (.error .incompleteRead, (hRead r.fp none).2) := Prod.ext h1.1 rfl
-    exact rawRead_h_error cfg r .incompleteRead _ hs.closed e
+    obtain ⟨r1, e'⟩ := rawRead_h_error cfg r .incompleteRead _ hs.closed e
+    exact ⟨r1, e', rawRead_error_done cfg r _ _ _ r1 e'⟩
   · intro h lr hs
-    obtain ⟨f, _, hf, _⟩ := hs.short
-    simp [hSrc, H.isclosed, hf]
+    exact hs.opened
 
 /-! ### a broken chunked body -/
 
@@ -910,6 +996,10 @@ structure CBroken (h : H) (lr : Option Int) : Prop where
   lr : lr = none
 
 /-- **`http.client`'s chunk reader on a broken chunked body obeys the broken-source contract** -/
+theorem CBroken.opened {h : H} {lr : Option Int} (hs : CBroken h lr) : hSrc.isclosed h = false := by
+  obtain ⟨f, hf, _⟩ := hs.broken
+  simp [hSrc, H.isclosed, hf]
+
 theorem hSrc_rawBroken_chunked : RawBrokenSpec (δ := δ) hSrc cfg CBroken H.avail := by
   constructor
   · intro r amt rd1 hamt hapi hs
@@ -931,7 +1021,8 @@ theorem hSrc_rawBroken_chunked : RawBrokenSpec (δ := δ) hSrc cfg CBroken H.ava
       rcases hReadChunkedLoop_broken_some (r.fp.avail + 2) r.fp f a [] ha hf hb (by omega) with
         ⟨h', e1⟩ | ⟨d, h', f', e1, e2, e3, e4, e5, e6⟩
       · left
-        exact rawRead_h_error' cfg r (some a) false .incompleteRead h' hcl (by simp [hrd, e1])
+        obtain ⟨r1, e⟩ := rawRead_h_error' cfg r (some a) false .incompleteRead h' hcl (by simp [hrd, e1])
+        exact ⟨r1, e, rawRead_error_done cfg r _ _ _ r1 e⟩
       · right
         have hde : d.isEmpty = false := by
           cases d with
@@ -939,19 +1030,21 @@ theorem hSrc_rawBroken_chunked : RawBrokenSpec (δ := δ) hSrc cfg CBroken H.ava
           | cons _ _ => rfl
         obtain ⟨r', f0, f1, f2, f3, _⟩ := rawRead_ok hSrc cfg r (some a) d h'
           (by simp [hSrc, hcl, hrd, e1]) (by simp [hde])
-        refine ⟨d, r', f0, e2, ?_, ?_, f3⟩
-        · rw [f1, f2]
+        have hb' : CBroken r'.fp r'.lengthRemaining := by
+          rw [f1, f2]
           simp only [hde, Bool.false_eq_true, and_false, if_false]
           exact ⟨by rw [e6.1]; exact hs.head, by rw [e6.2.1]; exact hs.chunked, by rw [e6.2.2.1]; exact hcl,
             ⟨f', e3, e4⟩, by rw [hs.lr]; rfl⟩
-        · rw [f1]
-          simp only [hde, Bool.false_eq_true, and_false, if_false]
-          simp only [H.avail, e3, hf]; exact e5
+        refine ⟨d, r', f0, e2, hb', ?_, f3, rawRead_ok_open hSrc cfg r _ _ d r' f0 hb'.opened⟩
+        rw [f1]
+        simp only [hde, Bool.false_eq_true, and_false, if_false]
+        simp only [H.avail, e3, hf]; exact e5
     | true =>
       rcases hRead1_broken r.fp amt hamt f hf hs.head hs.chunked hb with
         ⟨h', e1⟩ | ⟨d, h', f', e1, e2, e3, e4, e5, e6⟩
       · left
-        exact rawRead_h_error' cfg r amt true .incompleteRead h' hcl (by simp [e1])
+        obtain ⟨r1, e⟩ := rawRead_h_error' cfg r amt true .incompleteRead h' hcl (by simp [e1])
+        exact ⟨r1, e, rawRead_error_done cfg r _ _ _ r1 e⟩
       · right
         have hde : d.isEmpty = false := by
           cases d with
@@ -963,20 +1056,21 @@ theorem hSrc_rawBroken_chunked : RawBrokenSpec (δ := δ) hSrc cfg CBroken H.ava
           rintro (⟨_, h0⟩ | h0)
           · rw [hde] at h0; cases h0
           · rw [hs.lr] at h0; cases h0
-        refine ⟨d, r', f0, e2, ?_, ?_, f3⟩
-        · rw [f1, f2, if_neg hnc]
+        have hb' : CBroken r'.fp r'.lengthRemaining := by
+          rw [f1, f2, if_neg hnc]
           simp only [hde, Bool.false_eq_true, if_false]
           exact ⟨by rw [e6.1]; exact hs.head, by rw [e6.2.1]; exact hs.chunked, by rw [e6.2.2.1]; exact hcl,
             ⟨f', e3, e4⟩, by rw [hs.lr]; rfl⟩
-        · rw [f1, if_neg hnc]
-          simp only [H.avail, e3, hf]; exact e5
+        refine ⟨d, r', f0, e2, hb', ?_, f3, rawRead_ok_open hSrc cfg r _ _ d r' f0 hb'.opened⟩
+        rw [f1, if_neg hnc]
+        simp only [H.avail, e3, hf]; exact e5
   · intro r hs
     obtain ⟨f, hf, hb⟩ := hs.broken
     obtain ⟨h', e⟩ := hRead_broken_none r.fp f hf hs.head hs.chunked hb
-    exact rawRead_h_error cfg r .incompleteRead h' hs.closed e
+    obtain ⟨r1, e'⟩ := rawRead_h_error cfg r .incompleteRead h' hs.closed e
+    exact ⟨r1, e', rawRead_error_done cfg r _ _ _ r1 e'⟩
   · intro h lr hs
-    obtain ⟨f, hf, _⟩ := hs.broken
-    simp [hSrc, H.isclosed, hf]
+    exact hs.opened
 
 /-! ### urllib3's own chunk parser (`read_chunked`) on a broken chunked body -/
 
@@ -1130,7 +1224,7 @@ theorem rcLoop_broken (amt : Option Nat) (dc : Bool) :
         have hdec := decode_decStep D r2 d dc false
         generalize decode D r2 d dc false = x at hdec ⊢
         obtain ⟨y, r3⟩ := x
-        obtain ⟨s1, _, _, s5, _⟩ := hdec
+        obtain ⟨s1, _, _, s5, _, _⟩ := hdec
         simp only [] at s1 s5
         cases y with
         | error e => exact ⟨acc, _, r3, rfl⟩
@@ -1138,29 +1232,126 @@ theorem rcLoop_broken (amt : Option Nat) (dc : Bool) :
           simp only []
           exact ih r3 _ ⟨f2, by rw [s1]; exact g2, by rw [s5]; exact g3⟩
 
+/-! nothing inside the chunk loop touches `_connection` (only `_error_catcher` around it does) -/
+
+theorem updateChunkLength_conn (r : R H δ) : (updateChunkLength hSrc r).2.conn = r.conn := by
+  unfold updateChunkLength
+  split
+  · rfl
+  · split
+    · rfl
+    · simp only []
+      split
+      · rfl
+      · rfl
+      · unfold closeResp
+        simp only []
+        split <;> split <;> rfl
+
+theorem safeRead'_conn (r : R H δ) (n : Nat) : (safeRead' hSrc r n).2.conn = r.conn := by
+  unfold safeRead'
+  split <;> rfl
+
+theorem readAndToss_conn (r : R H δ) (n : Nat) : (readAndToss hSrc r n).2.conn = r.conn := by
+  unfold readAndToss
+  have h1 := safeRead'_conn r n
+  generalize safeRead' hSrc r n = x at h1 ⊢
+  obtain ⟨y, r1⟩ := x
+  cases y with
+  | error e => exact h1
+  | ok d =>
+    simp only []
+    have h2 := safeRead'_conn r1 2
+    generalize safeRead' hSrc r1 2 = x2 at h2 ⊢
+    obtain ⟨y2, r2⟩ := x2
+    cases y2 with
+    | error e => exact h2.trans h1
+    | ok _ => exact h2.trans h1
+
+theorem handleChunk_conn (r : R H δ) (amt : Option Nat) : (handleChunk hSrc r amt).2.conn = r.conn := by
+  unfold handleChunk
+  split
+  · rfl
+  · split
+    · exact readAndToss_conn r _
+    · split
+      · rename_i a _
+        have h1 := safeRead'_conn r a
+        generalize safeRead' hSrc r a = x at h1 ⊢
+        obtain ⟨y, r1⟩ := x
+        cases y <;> exact h1
+      · split
+        · exact readAndToss_conn r _
+        · exact readAndToss_conn r _
+
+theorem rcLoop_conn (amt : Option Nat) (dc : Bool) :
+    ∀ (fuel : Nat) (r : R H δ) (acc : List Bytes), (rcLoop hSrc D amt dc fuel r acc).2.conn = r.conn := by
+  intro fuel
+  induction fuel with
+  | zero => intro r acc; rfl
+  | succ k ih =>
+    intro r acc
+    unfold rcLoop
+    have h1 := updateChunkLength_conn r
+    generalize updateChunkLength hSrc r = x at h1 ⊢
+    obtain ⟨y, r1⟩ := x
+    cases y with
+    | error e => exact h1
+    | ok _ =>
+      simp only []
+      split
+      · exact h1
+      · have h2 := handleChunk_conn r1 amt
+        generalize handleChunk hSrc r1 amt = x2 at h2 ⊢
+        obtain ⟨y2, r2⟩ := x2
+        cases y2 with
+        | error e => exact h2.trans h1
+        | ok chunk =>
+          simp only []
+          have h3 := (decode_decStep D r2 chunk dc false).2.2.2.2.1
+          generalize decode D r2 chunk dc false = x3 at h3 ⊢
+          obtain ⟨y3, r3⟩ := x3
+          cases y3 with
+          | error e => exact h3.trans (h2.trans h1)
+          | ok dd =>
+            simp only []
+            rw [ih]
+            exact h3.trans (h2.trans h1)
+
 theorem initDec_chunkLeft (r : R H δ) : (initDec cfg r).chunkLeft = r.chunkLeft := by
   unfold initDec
   cases r.decoder <;> rfl
 
 /-- **`read_chunked(amt)`, `stream(amt)` and iteration on a broken chunked response end in an
-exception** (urllib3's own chunk parser; any amount, any decoder, decoding on or off) -/
+exception** (urllib3's own chunk parser; any amount, any decoder, decoding on or off), and — the whole
+loop runs inside `_error_catcher` — the connection the response held is closed and handed back -/
 theorem readChunked_broken (hch : cfg.chunked = true) (hhd : cfg.head = false) (amt : Option Nat)
     (r : R H δ) (f : Fp) (hf : r.fp.fp = some f) (hb : BrokenU r.chunkLeft f.content) :
-    (∀ dc, ∃ e, (readChunked hSrc D cfg r amt dc).1.2 = some e) ∧
-    (∀ dco, ∃ e, (stream hSrc D cfg r amt dco).1.2 = some e) := by
-  have h1 : ∀ dc, ∃ e, (readChunked hSrc D cfg r amt dc).1.2 = some e := by
+    (∀ dc, (∃ e, (readChunked hSrc D cfg r amt dc).1.2 = some e) ∧
+      (r.conn = true → ConnDone (readChunked hSrc D cfg r amt dc).2)) ∧
+    (∀ dco, (∃ e, (stream hSrc D cfg r amt dco).1.2 = some e) ∧
+      (r.conn = true → ConnDone (stream hSrc D cfg r amt dco).2)) := by
+  have h1 : ∀ dc, (∃ e, (readChunked hSrc D cfg r amt dc).1.2 = some e) ∧
+      (r.conn = true → ConnDone (readChunked hSrc D cfg r amt dc).2) := by
     intro dc
     obtain ⟨g1, _⟩ := initDec_other cfg r
+    obtain ⟨_, i2, _, _⟩ := initDec_sameConn cfg r
     have g2 := initDec_chunkLeft cfg r
+    have hcn := rcLoop_conn D amt dc cfg.fuel (initDec cfg r) []
     obtain ⟨ps, e, r', hrc⟩ := rcLoop_broken D amt dc cfg.fuel (initDec cfg r) []
       ⟨f, by rw [g1]; exact hf, by rw [g2]; exact hb⟩
+    rw [hrc] at hcn
+    simp only [] at hcn
     have hopen : hSrc.isclosed (initDec cfg r).fp = false := by
       rw [g1]; simp [hSrc, H.isclosed, hf]
     unfold readChunked
     simp only [hch, hhd, hopen, hrc, Bool.not_true, Bool.false_eq_true, if_false]
-    obtain ⟨r2, e1, _⟩ := errorCatcher_error_conn (α := Unit) hSrc r' e
+    obtain ⟨r2, e1, _, e3, e4⟩ := errorCatcher_error_conn (α := Unit) hSrc r' e
     rw [e1]
-    exact ⟨_, rfl⟩
+    refine ⟨⟨_, rfl⟩, fun hconn => ?_⟩
+    have hc' : r'.conn = true := by rw [hcn, i2]; exact hconn
+    obtain ⟨e5, e6⟩ := e4 (hSrc_close_isclosed _) hc'
+    exact ⟨by show r2.connClosed = true; rw [e3, hc']; simp, e5, e6⟩
   refine ⟨h1, fun dco => ?_⟩
   unfold stream
   simp only [hch, if_true]
@@ -1169,7 +1360,7 @@ theorem readChunked_broken (hch : cfg.chunked = true) (hhd : cfg.head = false) (
 theorem iter_broken_chunked (hch : cfg.chunked = true) (hhd : cfg.head = false)
     (r : R H δ) (f : Fp) (hf : r.fp.fp = some f) (hb : BrokenU r.chunkLeft f.content) :
     ∃ e, (iter hSrc D cfg r).1.2 = some e := by
-  obtain ⟨e, he⟩ := (readChunked_broken cfg D hch hhd (some 65536) r f hf hb).2 (some true)
+  obtain ⟨e, he⟩ := ((readChunked_broken cfg D hch hhd (some 65536) r f hf hb).2 (some true)).1
   unfold iter
   generalize stream hSrc D cfg r (some 65536) (some true) = x at he ⊢
   obtain ⟨⟨ps, oe⟩, r'⟩ := x
